@@ -63,6 +63,27 @@ Section Proofs.
     apply drop_err_noop. intros c E. exfalso. exact (float_val_err o bits r c H R E).
   Qed.
 
+  Notation typed := (C08_Paths.typed farith fpow fcmp i2f).
+
+  (* what the compiler actually selects: wrong for `==` on a Float (EQUAL_INT) ... *)
+  Theorem typed_refuted : exists o l r,
+    is_float l = true /\ has_float_opcode o = true /\ right_ok o r = true /\ typed o l r <> generic o l r.
+  Proof.
+    exists (OCmp CEq), (VFloat 0), (VFloat 0). repeat split. simpl. discriminate.
+  Qed.
+
+  (* ... and right for every other operator / for Int operands *)
+  Theorem typed_partial o l r :
+    (is_int l || is_float l) = true -> (is_int l = true \/ (has_float_opcode o = true /\ o <> OCmp CEq)) ->
+    right_ok o r = true -> typed o l r = generic o l r.
+  Proof.
+    intros L G R. unfold C08_Paths.typed. destruct (is_int l) eqn:I.
+    - apply typed_int_eq; assumption.
+    - destruct G as [G|[H N]]; [discriminate|]. simpl in L.
+      destruct o as [a| |cm| | |bo]; try discriminate; try (apply typed_float_eq; assumption).
+      destruct cm; try (apply typed_float_eq; assumption). exfalso. apply N. reflexivity.
+  Qed.
+
   Theorem fold_eq o l r v : fold o l r = Some v <-> generic o l r = Ok v.
   Proof.
     unfold C08_Paths.fold. destruct (generic o l r); split; intros H; try discriminate; congruence.
